@@ -167,3 +167,19 @@ var ghostTableURI func(t *Table) string
 
 //@ func Table.Document
 //@   property C08 C17 C06
+
+// ---- search index (C17): Search never indexes outside its offsets, for every
+// target key (also one below the first indexed key) and every table size.
+//@ func SearchIndex.Search
+//@   property C17
+//@   modifies nothing
+//@   ensures result2 == nil && len(si.offsets) > 0 ==> exists(0, len(si.offsets), func(j int) bool { return result0 == int64(si.offsets[j]) })
+//@   ensures result2 == nil ==> result0 <= result1
+
+//@ func SearchIndex.IndexOffset
+//@   property C17
+//@   requires si.itemsWritten >= 0
+//@   modifies si.offsets, si.itemsWritten
+//@   ensures si.itemsWritten == old(si.itemsWritten) + 1
+//@   ensures old(si.itemsWritten)%16 == 0 ==> len(si.offsets) == old(len(si.offsets)) + 1 && si.offsets[old(len(si.offsets))] == uint32(offset)
+//@   ensures old(si.itemsWritten)%16 != 0 ==> same(si.offsets, old(si.offsets))
